@@ -89,7 +89,7 @@ class View:
                     'dt': si.q_si('TimeInterval', op['dt']),
                     'dt_q': op['dt'], 'T': run_T_si(op), 'n_req': op['n'],
                     'control': bool(op.get('control')) and
-                    bool(scn.get('rules')),
+                    bool(scn.get('rules') or scn.get('empty_control')),
                     'stop': op.get('stop'),
                     'new_solver': rec['solver_id'] != prev_solver,
                     'pwm_in': rec['pwm_in'], 'exc': rec['exc'],
